@@ -15,7 +15,7 @@ CONSTANTS
  DocNKeys = 1
  DocShapes = {"p", "a2", "o1"}
  DocMaxBatch = 1
- PatchTargets = {"empty", "flat", "nested", "array", "arrayPerm", "permNested", "arrayGrow", "arrayShrink", "typeChange", "escaped", "deep", "mixed"}
+ PatchTargets = {"empty", "flat", "nested", "array", "arrayPerm", "permNested", "arrayGrow", "arrayShrink", "typeChange", "escaped", "escaped2", "deep", "mixed"}
  SimMode = FALSE
 INVARIANT Convergence
 INVARIANT RefOutcome
